@@ -1142,7 +1142,7 @@ def selftest(cases, obs, out):
 def correspond(tier, seed, model_ok):
     out = Outcome()
     r = Rng(seed)
-    n = 20 if tier == "quick" else 250
+    n = 20 if tier == "quick" else 200
     batch = 25          # histories per batch: bounds the memory of a thorough run
     done = 0
     nprobe = 0
